@@ -43,7 +43,7 @@ def gen(rng):
             priv_attr = rng.random() < 0.2
             if priv_attr:
                 attrs.append("private")
-            groups = rng.sample(["g1", "g2"], rng.choice([0, 0, 1, 2]))
+            groups = rng.sample(["g1", "g2", "G1", "b t", "B T"], rng.choice([0, 0, 1, 2]))
             doc, doc_src, comment, doc_attr = rng.choice(DOCS)
             if doc is not None:
                 doc = doc.replace("NM", nm)
